@@ -13,11 +13,19 @@ uint16_t vp_in_u16(void);
 uint32_t vp_in_u32(void);
 uint64_t vp_in_u64(void);
 
+/* -DVP_TWICE (C20): the harness body runs twice on independent inputs (rt/model_twice.c); the second run only has to leave the module-level state
+ * alone -- its own assertions and witnesses were already decided by the first run and are switched off */
+extern int vp_second_run;
+#ifdef VP_TWICE
+#define VP_RUN1 (!vp_second_run)
+#else
+#define VP_RUN1 1
+#endif
 #ifdef __CPROVER__
-#define ASSERT(c, m) __CPROVER_assert((c), m)
+#define ASSERT(c, m) __CPROVER_assert(!VP_RUN1 || (c), m)
 #define ASSUME(c) __CPROVER_assume(c)
 /* reachability witness: MUST come back violated, otherwise the harness is vacuous */
-#define REACH(m) __CPROVER_assert(0, "witness: " m)
+#define REACH(m) __CPROVER_assert(!VP_RUN1, "witness: " m)
 /* p is the base of a live heap object of exactly n bytes */
 #define VP_HEAP_EXACT(p, n) (__CPROVER_DYNAMIC_OBJECT(p) && __CPROVER_POINTER_OFFSET(p) == VP_HDR && VP_LOGICAL_SIZE(p) == (uint64_t)(n) && __CPROVER_r_ok((p), 1))
 #define VP_READABLE(p, n) __CPROVER_r_ok((p), (n))
@@ -31,9 +39,9 @@ int vp_nat_heap_exact(const void *p, uint64_t n);
 int vp_nat_readable(const void *p, uint64_t n);
 int vp_nat_same_object(const void *p, const void *q);
 void vp_nat_obs(uint64_t x);
-#define ASSERT(c, m) do { if (!(c)) vp_nat_assert_fail(m, __FILE__, __LINE__); } while (0)
+#define ASSERT(c, m) do { if (VP_RUN1 && !(c)) vp_nat_assert_fail(m, __FILE__, __LINE__); } while (0)
 #define ASSUME(c) do { if (!(c)) vp_nat_assume_fail(__FILE__, __LINE__); } while (0)
-#define REACH(m) vp_nat_reach(m)
+#define REACH(m) do { if (VP_RUN1) vp_nat_reach(m); } while (0)
 #define VP_HEAP_EXACT(p, n) vp_nat_heap_exact((p), (n))
 #define VP_READABLE(p, n) vp_nat_readable((p), (n))
 #define VP_SAME_OBJECT(p, q) vp_nat_same_object((p), (q))
